@@ -182,6 +182,8 @@ pub struct Variant {
     pub rename: Option<String>,
     /// variant-level rename_all (applies to struct-variant fields)
     pub rename_all: Option<String>,
+    /// further serde arguments of the variant, written as given (`skip_deserializing`)
+    pub extra_serde: Vec<String>,
     pub kind: VKind,
     pub skip: Skip,
     pub docs: Vec<Doc>,
@@ -191,7 +193,7 @@ pub struct Variant {
 
 impl Variant {
     pub fn new(ident: &str, kind: VKind) -> Self {
-        Variant { ident: ident.to_string(), rename: None, rename_all: None, kind, skip: Skip::No, docs: vec![], cfgs: vec![], serialized_as: None }
+        Variant { ident: ident.to_string(), rename: None, rename_all: None, kind, skip: Skip::No, docs: vec![], cfgs: vec![], serialized_as: None, extra_serde: vec![] }
     }
 }
 
@@ -221,6 +223,8 @@ pub struct Item {
     pub kind: Kind,
     pub rename: Option<String>,
     pub rename_all: Option<String>,
+    /// further container-level serde arguments, written as given (`rename_all_fields = ".."`)
+    pub extra_serde: Vec<String>,
     pub generics: Vec<String>,
     pub annot: Annot,
     pub docs: Vec<Doc>,
@@ -235,7 +239,7 @@ pub struct Item {
 
 impl Item {
     pub fn new(ident: &str, kind: Kind) -> Self {
-        Item { ident: ident.to_string(), kind, rename: None, rename_all: None, generics: vec![], annot: Annot::Plain, docs: vec![], cfgs: vec![], ts_args: vec![], serialized_as: None, mods: vec![], derives: true }
+        Item { ident: ident.to_string(), kind, rename: None, rename_all: None, generics: vec![], annot: Annot::Plain, docs: vec![], cfgs: vec![], ts_args: vec![], serialized_as: None, mods: vec![], derives: true, extra_serde: vec![] }
     }
     pub fn is_annotated(&self) -> bool {
         self.annot != Annot::None
@@ -456,6 +460,7 @@ pub fn render_item(it: &Item, o: &RenderOpts, rng: &mut Rng, out: &mut String) {
     if let Some(r) = &it.rename_all {
         serde.push(format!("rename_all = \"{}\"", esc(r)));
     }
+    serde.extend(it.extra_serde.iter().cloned());
     if let Kind::Enum { tag, content, .. } = &it.kind {
         if let Some(t) = tag {
             serde.push(format!("tag = \"{}\"", esc(t)));
@@ -518,6 +523,7 @@ pub fn render_item(it: &Item, o: &RenderOpts, rng: &mut Rng, out: &mut String) {
                 if v.skip == Skip::Serde || (v.skip == Skip::Typeshare && o.strip_typeshare) {
                     serde.push("skip".into());
                 }
+                serde.extend(v.extra_serde.iter().cloned());
                 serde_attr(&serde, rng, o.vary, &vind, out);
                 if !o.strip_typeshare {
                     let mut ts = vec![];
